@@ -243,6 +243,32 @@ impl_into!(vec512_storage, [u32; 16], u32x16);
 impl_into!(vec512_storage, [u64; 8], u64x8);
 impl_into!(vec512_storage, [u128; 4], u128x4);
 
+/// Verification hook (only with `--cfg cryptocorrosion_verif`): a process-global maximum
+/// feature level consulted at the top of the `std` arms of `dispatch!`, `dispatch_light128!`
+/// and `dispatch_light256!`, so that a host supporting AVX2 can execute the SSE2, SSSE3,
+/// SSE4.1 and AVX instantiations. 0 = no override (the detection chain runs as usual),
+/// 1 = SSE2, 2 = SSSE3, 3 = SSE4.1, 4 = AVX, 5 = AVX2. A level is honoured only if the CPU
+/// reports the feature; otherwise the ordinary detection chain decides.
+#[cfg(cryptocorrosion_verif)]
+pub mod verif {
+    use core::sync::atomic::{AtomicU8, Ordering};
+    static LEVEL: AtomicU8 = AtomicU8::new(0);
+    pub const NONE: u8 = 0;
+    pub const SSE2: u8 = 1;
+    pub const SSSE3: u8 = 2;
+    pub const SSE41: u8 = 3;
+    pub const AVX: u8 = 4;
+    pub const AVX2: u8 = 5;
+    #[inline]
+    pub fn set_level(level: u8) {
+        LEVEL.store(level, Ordering::SeqCst)
+    }
+    #[inline]
+    pub fn level() -> u8 {
+        LEVEL.load(Ordering::SeqCst)
+    }
+}
+
 /// Generate the full set of optimized implementations to take advantage of the most important
 /// hardware feature sets.
 ///
@@ -283,6 +309,15 @@ macro_rules! dispatch {
                 fn_impl($crate::x86_64::SSE2::instance(), $($arg),*)
             }
             unsafe {
+                #[cfg(cryptocorrosion_verif)]
+                match $crate::x86_64::verif::level() {
+                    1 if is_x86_feature_detected!("sse2") => return impl_sse2($($arg),*),
+                    2 if is_x86_feature_detected!("ssse3") => return impl_ssse3($($arg),*),
+                    3 if is_x86_feature_detected!("sse4.1") => return impl_sse41($($arg),*),
+                    4 if is_x86_feature_detected!("avx") => return impl_avx($($arg),*),
+                    5 if is_x86_feature_detected!("avx2") => return impl_avx2($($arg),*),
+                    _ => {}
+                }
                 if is_x86_feature_detected!("avx2") {
                     impl_avx2($($arg),*)
                 } else if is_x86_feature_detected!("avx") {
@@ -347,6 +382,12 @@ macro_rules! dispatch_light128 {
                 fn_impl($crate::x86_64::SSE2::instance(), $($arg),*)
             }
             unsafe {
+                #[cfg(cryptocorrosion_verif)]
+                match $crate::x86_64::verif::level() {
+                    1 | 2 | 3 if is_x86_feature_detected!("sse2") => return impl_sse2($($arg),*),
+                    4 | 5 if is_x86_feature_detected!("avx") => return impl_avx($($arg),*),
+                    _ => {}
+                }
                 if is_x86_feature_detected!("avx") {
                     impl_avx($($arg),*)
                 } else if is_x86_feature_detected!("sse2") {
@@ -405,6 +446,12 @@ macro_rules! dispatch_light256 {
                 fn_impl($crate::x86_64::SSE2::instance(), $($arg),*)
             }
             unsafe {
+                #[cfg(cryptocorrosion_verif)]
+                match $crate::x86_64::verif::level() {
+                    1 | 2 | 3 if is_x86_feature_detected!("sse2") => return impl_sse2($($arg),*),
+                    4 | 5 if is_x86_feature_detected!("avx") => return impl_avx($($arg),*),
+                    _ => {}
+                }
                 if is_x86_feature_detected!("avx") {
                     impl_avx($($arg),*)
                 } else if is_x86_feature_detected!("sse2") {
